@@ -790,6 +790,95 @@ example : validateHeader exCtx { exHdr with totalDiff := 5 } = .error .WrongTota
 example : validateHeader exCtx { exHdr with secondaryScaling := 20 } = .error .InvalidScaling := by decide +kernel
 example : validateHeader { exCtx with prev := none } exHdr = .error .Orphan := by decide +kernel
 
+/-! ### every header of a chunk commits to the header MMR of its own ancestors
+
+`sync_batch_roots` speaks about the last header of a batch.  For a *chunk* — headers that link up,
+none of them genesis or already on the current header chain — the walk of
+`rewind_and_apply_header_fork` from the last header passes through every one of them and each is
+re-applied under `validate_root`. -/
+
+/-- **Every header of an accepted chunk was root-checked** (all chunk lengths, all positions). -/
+theorem sync_chunk_roots_all (n : HNode) (opts : Opts) (sh : Tip) (chunk : List FHdr) (n' : HNode)
+    (r : Bool) (h : processBlockHeaders n opts sh chunk = .ok (n', r))
+    (hlink : Linked chunk) (hnd : (chunk.map (·.hash)).Nodup)
+    (hnew : ∀ e0, extInit n'.hdrs n.hmmr = some e0 → ∀ x ∈ chunk,
+      x.h.height ≠ 0 ∧ e0.onChain n'.hdrs x.hash x.h.height ≠ some true) :
+    ∀ x ∈ chunk, x.rootOk = true := by
+  intro x hx
+  have hne : chunk ≠ [] := by intro hb; subst hb; cases hx
+  obtain ⟨_, _, _, _, hstore, _⟩ := sync_batch_sound n opts sh chunk n' r h
+  have hstore := hstore.resolve_left hne
+  unfold processBlockHeaders at h
+  split at h
+  · rename_i hl
+    exact absurd (by simpa using hl) hne
+  rename_i last hl
+  split at h
+  · cases h
+  rename_i s hs
+  obtain ⟨_, hs'⟩ := (validateLoop_ok_iff chunk n.hdrs s).mp hs
+  have hsn : n'.hdrs = s := by rw [hstore, hs']
+  split at h
+  · cases h
+  rename_i e0 he0
+  split at h
+  · cases h
+  rename_i e1 hra
+  unfold rewindAndApplyHeaderFork at hra
+  split at hra
+  · cases hra
+  rename_i forked fork hfw
+  obtain ⟨pre, hpre⟩ := List.getLast?_eq_some_iff.mp hl
+  have hnew' := hnew e0 (by rw [hsn]; exact he0)
+  have hcov := forkWalk_covers (s := s) (e := e0) pre.reverse last _ [] forked fork
+    (by simpa [hpre] using hlink)
+    (fun y hy => by
+      have hy' : y ∈ chunk := by
+        rw [hpre]
+        rcases List.mem_cons.mp hy with rfl | hy
+        · simp
+        · exact List.mem_append_left _ (by simpa using hy)
+      refine ⟨by rw [hs']; exact getHdr_chunk chunk n.hdrs y hnd hy', (hnew' y hy').1, ?_⟩
+      rw [← hsn]; exact (hnew' y hy').2)
+    hfw
+  have hmem : x.hash ∈ fork := hcov x (by
+    rw [hpre] at hx
+    rcases List.mem_append.mp hx with hx | hx
+    · exact List.mem_cons_of_mem _ (by simpa using hx)
+    · simp only [List.mem_singleton] at hx; subst hx; simp)
+  obtain ⟨f, hf, hroot⟩ := reapply_roots fork _ _ hra _ hmem
+  rw [hs', getHdr_chunk chunk n.hdrs x hnd hx] at hf
+  cases hf
+  rcases hroot with h0 | hr
+  · exact absurd h0 (hnew' x hx).1
+  · exact hr
+
+/-- **A chunk accepted with computed root comparisons commits, header by header, to the MMR of
+its predecessors**: for every position of the chunk, the header's `prev_root` is the root of the
+header MMR recorded after its parent — the stored parent for the first header, the chunk's
+previous header (with ITS leaf pushed, whatever `prev_root` it carried) for the others. -/
+theorem chunk_prev_roots_are_ancestor_roots {α H : Type} [DecidableEq H]
+    (hf : Pmmr.HashFn α H) (N : RNode α H) (opts : Opts) (sh : Tip) (chunk : List (RHdr α H))
+    (N' : RNode α H) (b : Bool) (h : syncR hf N opts sh chunk = .ok (N', b))
+    (hlink : Linked (flagged hf N.rs chunk))
+    (hnd : ((flagged hf N.rs chunk).map (·.hash)).Nodup)
+    (hnew : ∀ e0, extInit N'.n.hdrs N.n.hmmr = some e0 → ∀ x ∈ flagged hf N.rs chunk,
+      x.h.height ≠ 0 ∧ e0.onChain N'.n.hdrs x.hash x.h.height ≠ some true) :
+    ∀ pre x post, chunk = pre ++ x :: post →
+      ∃ p m, rLookup ((flagChunk hf N.rs pre).reverse ++ N.rs) x.f.prevHash = some (p, m) ∧
+        Pmmr.root hf m = .ok x.prevRoot := by
+  intro pre x post hc
+  unfold syncR at h
+  dsimp only at h
+  split at h
+  · cases h
+  rename_i n' b' hp
+  cases h
+  have hall := sync_chunk_roots_all N.n opts sh (flagged hf N.rs chunk) _ _ hp hlink hnd hnew
+  have hmem := flagChunk_at hf pre N.rs x post
+  rw [← hc] at hmem
+  exact flagOne_rootOk hf _ x (hall _ (List.mem_map_of_mem hmem))
+
 /- **`known_hash_cannot_move_head` — full statement, FALSE for the code as it is** (only under
 the test option `Options::SKIP_POW`; see `known_hash_moves_head_under_skip_pow` for the
 kernel-checked counter-example, which the harness reproduces on the real `Chain`):
@@ -971,6 +1060,24 @@ example : errOf (processBlockHeaders exNode Opts.NONE exNode.headerHead [exX, ex
 /-- the single-header path answers `Ok` for it and changes nothing -/
 example : (nodeProcessBlockHeader exNode Opts.NONE exP').toOption.map (·.headerHead) =
     some exNode.headerHead := by decide +kernel
+
+/-- non-vacuity, with a toy hash: genesis, then the chunk `[exP, exX]` whose `prev_root`s are the
+roots of the MMR after genesis resp. after `exP` — accepted; the same chunk with a wrong
+`prev_root` in its FIRST header (the second one still committing to the MMR that results after
+the first is applied) or in its last header — refused with `InvalidRoot` -/
+def exHF : Pmmr.HashFn Nat Nat where
+  leaf := fun i e => (i * 1000003 + e * 7919) % 1000000007
+  node := fun i l r => (i * 101 + l * 31 + r * 17 + 5) % 1000000007
+def exRNode : RNode Nat Nat := RNode.genesis exHF .automatedTesting ⟨exG, 100, 0⟩
+example : (flagged exHF exRNode.rs [⟨exP, 101, 791900⟩, ⟨exX, 102, 55146081⟩]).map (·.rootOk) = [true, true] ∧
+    (flagged exHF exRNode.rs [⟨exP, 101, 791901⟩, ⟨exX, 102, 55146081⟩]).map (·.rootOk) = [false, true] := by
+  decide +kernel
+example : errOf (syncR exHF exRNode Opts.NONE exRNode.n.headerHead [⟨exP, 101, 791900⟩, ⟨exX, 102, 55146081⟩]) = none ∧
+    errOf (syncR exHF exRNode Opts.SYNC exRNode.n.headerHead [⟨exP, 101, 791901⟩, ⟨exX, 102, 55146081⟩]) =
+      some (.hdr .InvalidRoot) ∧
+    errOf (syncR exHF exRNode Opts.NONE exRNode.n.headerHead [⟨exP, 101, 791900⟩, ⟨exX, 102, 55146082⟩]) =
+      some (.hdr .InvalidRoot) := by
+  decide +kernel
 
 /-- **The full statement fails under `SKIP_POW`**: the mutated copy of the known `header_head`
 (same hash) is accepted by the batch path, `header_head`'s total difficulty goes from 4 to 50 and
